@@ -159,6 +159,18 @@ func c16a(c *Ctx) {
 	isEmpty := func(e ast.Expr) bool { s, ok := constString(info, e); return ok && s == "" }
 	c.guardSuccess(f, "no extension line", g.EdgesImplying(func(a Atom) bool { rel, ok := cmpRel(a, ckF("Extension"), isEmpty); return ok && rel == relEQ }), signs,
 		"a checkpoint with extension lines is accepted")
+	// the origin whose verifiers opened the note is the origin the parsed checkpoint states
+	c.guardSuccess(f, "origin of the note is the checkpoint's origin", g.EdgesImplying(func(a Atom) bool {
+		rel, ok := cmpRel(a, ckF("Origin"), func(e ast.Expr) bool {
+			o := objOf(info, e)
+			if o == nil {
+				return false
+			}
+			_, isVar := o.(*types.Var)
+			return isVar && !f.IsFieldPathOf(e, func(types.Object) bool { return true }, "Origin")
+		})
+		return ok && rel == relEQ
+	}), signs, "the subtree can be signed for an origin other than the one whose first line selected the verifiers")
 	// per-signer re-verification: a note.Open inside the signing loop with VerifierList(s.Verifier())
 	var re []Site
 	for _, s := range opens {
